@@ -128,16 +128,22 @@ func genC06(e *emitter, tier string) {
 		if c.seq >= 2 && c.hid > 1 && c.in > 1 {
 			e.emit(splitCase(o.op, attrs, c, ins, 1+e.rng.Intn(c.seq-1)))
 		}
-		// default activations on real data (tolerance: testing)
-		if i%3 == 0 {
+		// default / mixed activations on real data (tolerance: testing); every operator type
+		if (i/3)%2 == 0 {
 			var attrsF []Attr
 			for _, a := range attrs {
 				if a.Name != "activations" {
 					attrsF = append(attrsF, a)
 				}
 			}
-			if e.rng.Intn(3) == 0 {
-				attrsF = append(attrsF, Attr{Name: "activations", Type: "strings", Ss: map[string][]string{"RNN": {"sigmoid"}, "GRU": {"tanh", "sigmoid"}, "LSTM": {"tanh", "relu", "sigmoid"}}[o.op]})
+			// two of three float cases carry explicit activations: every function at every role
+			if k := e.rng.Intn(3); k != 0 {
+				combos := map[string][][]string{
+					"RNN":  {{"sigmoid"}, {"relu"}, {"tanh"}},
+					"GRU":  {{"tanh", "sigmoid"}, {"sigmoid", "relu"}, {"relu", "tanh"}},
+					"LSTM": {{"tanh", "relu", "sigmoid"}, {"sigmoid", "tanh", "relu"}, {"relu", "sigmoid", "tanh"}, {"sigmoid", "relu", "relu"}},
+				}[o.op]
+				attrsF = append(attrsF, Attr{Name: "activations", Type: "strings", Ss: combos[e.rng.Intn(len(combos))]})
 			}
 			insF := c.inputs(func(s []int, sd int) *TJ { return realT(e, "f32", s, 1.0) })
 			e.emit(opCase("float", o.op, attrsF, insF, []string{"Y", "Y_h", "Y_c"}[:o.no]))
